@@ -50,3 +50,7 @@ Print Assumptions C08_span_is_yield_hull_weak.
 Theorem C08_replay_span_is_yield_hull : replay_span_is_yield_hull_stmt.
 Proof. exact replay_span_is_yield_hull. Qed.
 Print Assumptions C08_replay_span_is_yield_hull.
+
+Theorem C08_fixed_changes_only_spans : fixed_changes_only_spans_stmt.
+Proof. exact fixed_changes_only_spans. Qed.
+Print Assumptions C08_fixed_changes_only_spans.
